@@ -15,6 +15,7 @@ VARIANTS = {
     "std": [],
     "nostd": ["--no-default-features", "--features", "nostd"],
     "nolock": ["--no-default-features", "--features", "nolock"],
+    "bundled": ["--features", "bundled"],
 }
 
 
